@@ -211,6 +211,7 @@ func Run(c *core.Ctx) int {
 			}
 			docs = append(docs, calcproto.Gen(c.Rng, o))
 		}
+		docs = append(docs, targetedRemovalDocs()...)
 	}
 	// model agreement on reordered documents
 	perms := make([]*calcproto.Doc, len(docs))
@@ -227,6 +228,7 @@ func Run(c *core.Ctx) int {
 		c.TieBroken("drive:C17/model", err.Error(), nil)
 		return c.Finish("", nil)
 	}
+	var rms []rmCase
 	for i, d := range docs {
 		if !ores[i].Agree || !pres[i].Agree {
 			c.Count("skipped:outside-2^52-domain", 1)
@@ -293,43 +295,11 @@ func Run(c *core.Ctx) int {
 			}
 		}
 
-		// --- removing included taxes
-		if d.Includes != "" && d.Rounding == nil && !tooLargeForRemoval(inv) {
-			c.Count("relation:remove-included", 1)
-			inv3 := d.Invoice()
-			_ = inv3.Calculate()
-			twt := inv3.Totals.TotalWithTax
-			var rerr error
-			pan := core.Protect(func() { rerr = inv3.RemoveIncludedTaxes() })
-			cls := ""
-			sub := uint32(2)
-			if def := inv.Currency.Def(); def != nil {
-				sub = def.Subunits
-			}
-			if calcproto.FixedFinerThanPresented(d, sub) {
-				cls = "c17.fixedAmountFinerThanPresented"
-			} else if removalMakesFixedDocRowFiner(d, sub) {
-				cls = "c17.removeIncludedFixedDocRow"
-			}
-			if pan != "" || rerr != nil {
-				c.Fail("", fmt.Sprintf("RemoveIncludedTaxes failed: %v %s", rerr, pan), c01.Case{Doc: d})
-			} else if inv3.Totals == nil {
-				c.Fail("", "RemoveIncludedTaxes dropped the totals", c01.Case{Doc: d})
-			} else {
-				t := inv3.Totals
-				if !t.Payable.Equals(twt) {
-					c.Fail(cls, fmt.Sprintf("after RemoveIncludedTaxes payable %s != original total_with_tax %s", t.Payable.String(), twt.String()), c01.Case{Doc: d})
-				} else {
-					res := t.Payable.Subtract(t.TotalWithTax)
-					if (t.Rounding == nil && !res.IsZero()) || (t.Rounding != nil && !t.Rounding.Equals(res)) {
-						c.Fail("", fmt.Sprintf("residue %s not recorded in rounding %s", res.String(), ao(t.Rounding)), c01.Case{Doc: d})
-					}
-					if inv3.Tax != nil && inv3.Tax.PricesInclude != "" {
-						c.Fail("", "prices_include still set after RemoveIncludedTaxes", c01.Case{Doc: d})
-					}
-				}
-			}
+		// --- removing included taxes (judged in runRemoval, together with the model)
+		if d.Includes != "" {
+			rms = append(rms, rmCase{i: i, doc: d, body: strings.TrimPrefix(ores[i].Req, "calc ")})
 		}
 	}
-	return c.Finish("random documents (C01 variety); relations between runs of the real code: random reordering of lines/discounts/charges keeps every row's figures, all totals and rate-group amounts (as multisets); Invert yields the exact negation and twice restores; RemoveIncludedTaxes keeps payable = original total_with_tax with the residue in rounding; non-trivial = more than one line", nil)
+	runRemoval(c, rms)
+	return c.Finish("random documents (C01 variety); relations between runs of the real code: random reordering of lines/discounts/charges keeps every row's figures, all totals and rate-group amounts (as multisets); Invert yields the exact negation and twice restores; RemoveIncludedTaxes keeps payable = original total_with_tax with the residue in rounding, and its complete result (with and without totals present beforehand) equals Calc.removeIncludedDoc / removeIncludedRecalc of the Lean model; non-trivial = more than one line", nil)
 }
